@@ -58,7 +58,7 @@ func c08Atom(r *Rand) string {
 	case 10:
 		return "abc\r\nQUIT :pwned\r\n"
 	case 11:
-		return "#chan"
+		return []string{"#chan", "100%", "%s%d%n%!", "50%% off\r\nQUIT"}[r.Intn(4)]
 	case 12:
 		return string(r.Bytes(r.Range(1, 12), nil))
 	case 13:
